@@ -142,6 +142,24 @@ pub fn register_builtin_tools(registry: &ToolRegistry, config: BuiltinToolConfig
     registry.register_alias("shell", "bash");
 }
 
+/// Verification-only exports (compiled only with `--cfg rip_verif`; no behaviour change).
+#[cfg(rip_verif)]
+pub mod verif {
+    use super::BuiltinToolConfig;
+
+    pub async fn capture_stream(
+        stream: Box<dyn tokio::io::AsyncRead + Unpin + Send>,
+        config: &BuiltinToolConfig,
+        max_preview_bytes: usize,
+    ) -> (Vec<String>, serde_json::Value) {
+        super::shell::verif_capture_stream(stream, config, max_preview_bytes).await
+    }
+
+    pub fn truncate_utf8(bytes: &[u8], max_bytes: usize) -> (String, bool, usize) {
+        super::truncate_utf8(bytes, max_bytes)
+    }
+}
+
 #[cfg_attr(test, inline(never))]
 pub(super) fn parse_args<T: DeserializeOwned>(args: Value) -> Result<T, ToolOutput> {
     serde_json::from_value(args)
